@@ -48,6 +48,22 @@ package task
 //@ func (c *sync.Cond) Broadcast
 //@   trusted
 //@   requires[C13] lockerHeld[payload(c.L)]
+// Silence period: every finished prioritized task keeps the counter up for its own full silence period -- each call of
+// DonePrioritizedTask starts exactly one goroutine, which sleeps the configured period and then takes exactly one unit
+// off the counter (lastSleep/sleeps: ghost record of time.Sleep).
+//@ ghost sleeps int
+//@ ghost lastSleep int
+//@ func time.Sleep
+//@   trusted
+//@   modifies sleeps, lastSleep
+//@   ensures sleeps == old(sleeps) + 1 && lastSleep == d
+//@ func (ts *BackgroundTaskManager) DonePrioritizedTask
+//@   props C13
+//@   requires ts != nil
+//@   ensures[C13] gocount() == 1
 //@ func (ts *BackgroundTaskManager) DonePrioritizedTask$1
 //@   props C13
+//@   arith math
+//@   assert[C13] before "atomic.AddInt64(&ts.prioritizedTasks, -1)" : sleeps == old(sleeps) + 1 && lastSleep == ts.prioritizedTaskSilencePeriod
+//@   ensures[C13] ts.prioritizedTasks == old(ts.prioritizedTasks) - 1
 //@   requires ts != nil && ts.prioritizedTaskDoneCond != nil && ts.prioritizedTaskDoneCond.L != nil
